@@ -336,15 +336,26 @@ class Check:
 
     # ---------------------------------------------------------------- batch trace validation (code -> spec)
     def validate(self, module, events, shard=4000, env=None, timeout=3000, label="", keyfn=None, describe=None,
-                 cfg=None, corrupt=None):
+                 cfg=None, corrupt=None, align=None):
         """events: list of JSON-able arrays.  Returns list of (event, clause).  Violations are registered."""
         if not events:
             return []
         jobs = []
         tdir = os.path.join(self.dir, "traces")
         os.makedirs(tdir, exist_ok=True)
-        for off in range(0, len(events), shard):
-            chunk = events[off:off + shard]
+        cuts = list(range(0, len(events), shard))
+        if align is not None:
+            # stepped traces: a shard must start at the first event of an object's history
+            cuts = [0]
+            while cuts[-1] + shard < len(events):
+                j = cuts[-1] + shard
+                while j < len(events) and not align(events[j]):
+                    j += 1
+                if j >= len(events):
+                    break
+                cuts.append(j)
+        for ci, off in enumerate(cuts):
+            chunk = events[off:(cuts[ci + 1] if ci + 1 < len(cuts) else len(events))]
             self._shard_no += 1
             path = os.path.join(tdir, "%s_%s_%05d.ndjson" % (module, label or "t", self._shard_no))
             with open(path, "w") as f:
@@ -354,6 +365,7 @@ class Check:
             jobs.append((off, (self.dir, module, path, len(chunk), env, timeout, cfg)))
         bad_all = []
         certs = []
+        infos = []
         with cf.ThreadPoolExecutor(max_workers=NCPU) as ex:
             futs = {ex.submit(_validate_shard, a): off for off, a in jobs}
             for fu in cf.as_completed(futs):
@@ -363,6 +375,8 @@ class Check:
                     bad_all.append((off + i - 1, clause))
                 for c in res["cert"]:
                     certs.append(c)
+                for c in res["info"]:
+                    infos.append((off, c))
         self.events += len(events)
         self.traces += len(jobs)
         if len(self.samples) < 6:
@@ -377,6 +391,7 @@ class Check:
             key = keyfn(ev, clause) if keyfn else None
             self.report(module, ev, clause, key, describe)
         self.last_certs = certs
+        self.last_info = infos
         self._binding_control(module, events, {i for i, _ in bad_all}, env, timeout, cfg, label, corrupt=corrupt)
         return out
 
